@@ -27,6 +27,7 @@ def tbl : List Nat := [16, 24, 32, 48, 64, 80, 96, 112, 128, 256, 384, 512, 640,
 /-- closed form of `headIdx` -/
 def idxCF (sz : Nat) : Nat := if sz ∈ tbl then tbl.idxOf sz else 15
 
+set_option linter.unusedSimpArgs false in
 theorem headIdx_key (sz : Nat) : RecFile.headIdx keyCfg sz = idxCF sz := by
   by_cases h : sz ∈ tbl
   · simp only [tbl, List.mem_cons, List.not_mem_nil, or_false] at h
@@ -35,8 +36,10 @@ theorem headIdx_key (sz : Nat) : RecFile.headIdx keyCfg sz = idxCF sz := by
     simp only [tbl, List.mem_cons, List.not_mem_nil, or_false, not_or] at h
     obtain ⟨h1, h2, h3, h4, h5, h6, h7, h8, h9, h10, h11, h12, h13, h14, h15, h16⟩ := h
     unfold RecFile.headIdx Gen.freePieceListOffsetOfHeader
-    simp [keyCfg, Gen.keySizeAry, Gen.keyFreeOffsets, Gen.keyFreeOffset1st, List.range', *]
+    have e : ∀ a, (a = sz) = (sz = a) := fun a => propext eq_comm
+    simp [keyCfg, Gen.keySizeAry, Gen.keyFreeOffsets, Gen.keyFreeOffset1st, List.range', List.find?_cons, e, *]
 
+set_option linter.unusedSimpArgs false in
 theorem headIdx_val (sz : Nat) : RecFile.headIdx valCfg sz = idxCF sz := by
   by_cases h : sz ∈ tbl
   · simp only [tbl, List.mem_cons, List.not_mem_nil, or_false] at h
@@ -45,7 +48,8 @@ theorem headIdx_val (sz : Nat) : RecFile.headIdx valCfg sz = idxCF sz := by
     simp only [tbl, List.mem_cons, List.not_mem_nil, or_false, not_or] at h
     obtain ⟨h1, h2, h3, h4, h5, h6, h7, h8, h9, h10, h11, h12, h13, h14, h15, h16⟩ := h
     unfold RecFile.headIdx Gen.freePieceListOffsetOfHeader
-    simp [valCfg, Gen.valSizeAry, Gen.valFreeOffsets, Gen.valFreeOffset1st, List.range', *]
+    have e : ∀ a, (a = sz) = (sz = a) := fun a => propext eq_comm
+    simp [valCfg, Gen.valSizeAry, Gen.valFreeOffsets, Gen.valFreeOffset1st, List.range', List.find?_cons, e, *]
 
 theorem tbl_pos (sz : Nat) (h : sz ∈ tbl) : 0 < sz ∧ sz ≤ 1024 := by
   simp only [tbl, List.mem_cons, List.not_mem_nil, or_false] at h
@@ -121,6 +125,7 @@ theorem cfgOK_of (c : FileCfg) (h1 : c.sizeAry = tbl) (h2 : ∀ sz, RecFile.head
     split
     · rename_i n hn
       left
+      rw [h1]
       have := List.mem_of_find?_eq_some hn
       exact List.mem_of_mem_take this
     · rename_i hn
